@@ -145,6 +145,26 @@ def op_cases(run, rng):
         cid = "op-i-%d" % u
         cases.append((cid, "db %s\niscan %d 0" % (path, iroot), {"page_size": u}))
         oracle[cid] = ["open ok %d" % u] + exp_i + ["end ok"]
+    # page 1 is a leaf of sqlite_master with 100 bytes less room than any other page, but the same local-payload thresholds:
+    # one CREATE TABLE text per file, its length swept across the thresholds X, M and the spill boundary
+    dist["master_records"] = 0
+    for u in sizes:
+        x = u - 35
+        targets = sorted(set([x + d for d in range(-140, 12, 3)] + [x + (u - 4) + d for d in range(-6, 7, 3)] + [40, u // 2]))
+        for L in targets:
+            if L < 30:
+                continue
+            path = os.path.join(wd, "m-%d-%d.db" % (u, L))
+            c = sqlfmt.new_db(path, u)
+            stem = "CREATE TABLE t(a /*"
+            sql = stem + "x" * max(0, L - len(stem) - 3) + "*/)"
+            c.execute(sql)
+            rows = c.execute("SELECT type, name, tbl_name, rootpage, sql FROM sqlite_master").fetchall()
+            c.close()
+            cid = "op-m-%d-%d" % (u, L)
+            cases.append((cid, "db %s\nmaster" % path, {"page_size": u}))
+            oracle[cid] = ["open ok %d" % u] + ["obj %s %s %s %d %s" % (t.encode().hex(), n.lower().encode().hex(), tb.lower().encode().hex(), r, q.encode().hex()) for t, n, tb, r, q in rows] + ["end ok"]
+            dist["master_records"] += 1
     return cases, oracle, dist
 
 
